@@ -339,30 +339,71 @@ theorem cli_modelled_nlp (T : Tuning S) (db : Db) (hnlp : T.nlp = Boosts.nlpOut 
     r.Pairwise (fun a b => lt a.2 b.2 = false) ∧ (∀ x ∈ r, Nonneg x.2) :=
   cli T (tuningWF_of_modelled_nlp T db hnlp hR) db q o hl r h
 
-/-! non-vacuity: the modelled NLP layer on the example database (S := ℚ) -/
+/-! non-vacuity (S := ℚ).  The examples evaluate the *interpreter* on a small hand-written rule set and a hand-written
+    analysis, so that they do not depend on the regenerated literals (a harmless change of a literal in the source must not
+    break this file); that the regenerated rule set computes what the real functions compute is the `boosts` correspondence. -/
 section examples_modelled
 
 local instance : ScoreOps ℚ := fieldScoreOps ℚ
 local instance : ScoreLaws ℚ := fieldScoreLaws ℚ
 
-/-- the example parameter set with the modelled NLP layer for `db0` -/
+/-- the example parameter set with the modelled NLP layer for `db0`: the hypotheses of `universal_modelled_nlp` are satisfiable -/
 private def T1 : Tuning ℚ := { T0 with nlp := Boosts.nlpOut T0.ri db0 }
 
 private theorem T1_rest : TuningWFRest T1 := ⟨T0_wf.params, T0_wf.idf, T0_wf.tfidf, T0_wf.fuzzySort⟩
 
--- the factors are not trivial: for "list files" (intent find; actions list/show/display; targets files/documents)
--- `ls -la — list files` gets 2·1.3·1.2 = 78/25 and 1+3+2+1.5 = 15/2; `tar czf x` gets 1 and 1
-example : [0, 1, 2].map (Boosts.nlpOut (S := ℚ) {} db0 (bs "list files")).intentBoost = [78/25, 1, 2] := by decide +kernel
-example : [0, 1, 2].map (Boosts.nlpOut (S := ℚ) {} db0 (bs "list files")).cascade = [15/2, 1, 10] := by decide +kernel
--- "compress directory": the compression special case (1.5·2.5·… on `tar`) and the command hint `tar` (+6)
-example : [0, 1, 2].map (Boosts.nlpOut (S := ℚ) {} db0 (bs "compress directory")).intentBoost = [1, 117/8, 1] := by decide +kernel
-example : [0, 1, 2].map (Boosts.nlpOut (S := ℚ) {} db0 (bs "compress directory")).cascade = [1, 27/2, 1] := by decide +kernel
--- a search through the modelled layer (one document scores, so the kernel can evaluate the stable sort), and the
--- theorem applied to it
-example : (search T1 db0 (bs "compress directory") { o0 with useNLP := true, limit := 1 }).toOption.map (·.map (·.1)) = some [1] := by
+example : ∀ q o r, search T1 db0 q o = .ok r → r.length ≤ effLimit o ∧ ∀ x ∈ r, Nonneg x.2 :=
+  fun q o r h => let p := universal_modelled_nlp T1 db0 rfl T1_rest q o r h; ⟨p.1, p.2.2.2.2⟩
+
+open Wtf.Boost in
+/-- a small rule set in the vocabulary of `Basic/BoostRule.lean` (shapes as in search.go / cascading_boost.go) -/
+private def exSpec : Boosts.Spec :=
+  { intentInit := ⟨1, 1⟩
+    intentSwitch := [
+      ("find", .block [.ite (.containsAny .cmd ["ls", "grep"]) (.ret ⟨2, 1⟩) .skip, .ret ⟨1, 1⟩]),
+      ("create", .block [.ite (.containsAny .cmd ["make"])
+          (.block [.set ⟨2, 1⟩, .ite (.and (.contains .cmd "makepkg") (.not (.contains .desc "package"))) (.mul ⟨3, 10⟩) .skip, .retBoost]) .skip,
+        .ret ⟨1, 1⟩])]
+    intentDefault := ⟨1, 1⟩
+    actionBoosts := .block [.set ⟨1, 1⟩,
+      .loop .actions (.block [
+        .ite (.containsVar .cmd) (.mul ⟨3, 2⟩) (.ite (.containsVar .desc) (.mul ⟨13, 10⟩) .skip),
+        .ite (.varEq "compress") (.ite (.containsAny .cmd ["tar"]) (.mul ⟨5, 2⟩) .skip) .skip]),
+      .retBoost]
+    targetBoosts := .block [.set ⟨1, 1⟩, .loop .targets (.ite (.containsVar .cmd) (.mul ⟨7, 5⟩) (.ite (.containsVar .desc) (.mul ⟨6, 5⟩) .skip)), .retBoost]
+    cascadeInit := ⟨1, 1⟩
+    cascadeTerms := [.hint ⟨6, 1⟩, .term .actionTerms ⟨3, 1⟩, .context ⟨5, 2⟩, .term .targetTerms ⟨2, 1⟩, .intent]
+    hintMiss := ⟨0, 1⟩, termMiss := ⟨0, 1⟩, contextMiss := ⟨0, 1⟩
+    intentNoEntry := ⟨0, 1⟩, intentHit := ⟨3, 2⟩, intentMiss := ⟨0, 1⟩
+    intentKeywords := [("create", ["make", "new"])]
+    knownContexts := ["git", "tar"]
+    synonyms := [(bs "compress", [bs "zip", bs "archive"])] }
+
+example : exSpec.WF = true := by decide
+
+/-- a hand-written analysis: "list files" -/
+private def exA : Nlp.Analysis := { actions := [bs "list"], targets := [bs "files"], keywords := [bs "files"], intent := bs "find" }
+/-- … and "compress with tar" -/
+private def exB : Nlp.Analysis := { actions := [bs "compress"], targets := [], keywords := [bs "tar"], intent := bs "general" }
+
+-- intent find + command contains "ls": 2; action only in the description: 1.3; target only in the description: 1.2
+example : Boosts.intentBoostWith (S := ℚ) exSpec {} (mk "ls -la" "list files") exA = 78 / 25 := by decide +kernel
+-- nothing matches: exactly 1
+example : Boosts.intentBoostWith (S := ℚ) exSpec {} (mk "tar czf x" "compress directory") exA = 1 := by decide +kernel
+-- action in the command (1.5) and the compression special case (2.5)
+example : Boosts.intentBoostWith (S := ℚ) exSpec {} (mk "tar czf x compress" "pack") exB = 15 / 4 := by decide +kernel
+-- the makepkg penalty: 2 · 0.3, still positive
+example : Boosts.intentBoostWith (S := ℚ) exSpec {} (mk "makepkg -s" "build it") { exA with intent := bs "create" } = 3 / 5 := by
   decide +kernel
-example : ∀ r, search T1 db0 (bs "compress directory") { o0 with useNLP := true, limit := 1 } = .ok r → r.length ≤ 1 ∧ ∀ x ∈ r, Nonneg x.2 :=
-  fun r h => let p := universal_modelled_nlp T1 db0 rfl T1_rest (bs "compress directory") _ r h; ⟨p.1, p.2.2.2.2⟩
+-- cascading boost: hint `tar` via the first field (+6), synonym `archive` of the action in the text (+3), context `tar` (+2.5)
+example : Boosts.cascadeBoostWith (S := ℚ) exSpec {} (mk "TAR czf x" "archive a folder")
+    (Boosts.buildCtx exSpec {} exB [bs "tar", bs "zip"]) = 25 / 2 := by decide +kernel
+-- … and exactly 1 when nothing matches
+example : Boosts.cascadeBoostWith (S := ℚ) exSpec {} (mk "ls -la" "list files") (Boosts.buildCtx exSpec {} exB [bs "tar"]) = 1 := by
+  decide +kernel
+-- the general theorems apply to it
+example : Pos (Boosts.intentBoostWith (S := ℚ) exSpec {} (mk "makepkg -s" "build it") exA) :=
+  Boosts.intentBoostWith_pos exSpec (by decide) _ _ _
 
 end examples_modelled
 
